@@ -408,7 +408,7 @@ func runCase(k *kase) (res runResult) {
 	tids := make([]int, k.nn)
 	for j := range stores {
 		tids[j] = -1
-		stores[j] = &gatedStore{Storage: stores[j], g: g, tid: &tids[j]}
+		stores[j] = newGatedStore(stores[j], g, &tids[j])
 	}
 
 	nodes := make([]*nodeEnv, k.nn)
@@ -422,7 +422,7 @@ func runCase(k *kase) (res runResult) {
 		n.sm.SetCloudControl(n.cloud)
 		n.park = newParkStore(stores[j])
 		n.rws = map[string]*fakeRW{}
-		n.cs = session.NewConnectionStateStore(n.park, n.id, time.Duration(k.ttl)*time.Millisecond)
+		n.cs = session.NewConnectionStateStore(n.park.handle(), n.id, time.Duration(k.ttl)*time.Millisecond)
 		n.sm.SetConnectionStateStore(n.cs)
 		n.sm.SetCrossNodePool(session.NewCrossNodePool(ctx, n.rec, n.id, session.DefaultCrossNodePoolConfig()))
 		nodes[j] = n
